@@ -9,7 +9,12 @@ from .. import apilevel as A, docx_builder as B, gen_xml, shrink, terms as T
 from ..gen_xml import xml_json
 
 MAPS = [None, "", "p.Quote => blockquote > p:fresh\nb => b\nu => u\ncomment-reference => sup\nthis line is bad",
-        "r.Strong => strong\np.Heading1 => h1.x\nbr[type='page'] => hr\np.ListParagraph => !", "p => div > p:fresh\nhighlight => mark"]
+        "r.Strong => strong\np.Heading1 => h1.x\nbr[type='page'] => hr\np.ListParagraph => !", "p => div > p:fresh\nhighlight => mark",
+        # every matcher kind and operator against elements with and without style names, numbering, colours
+        "p[style-name^='Head'] => h1:fresh\nr[style-name^='Str'] => strong\ntable[style-name^='Fan'] => table.f\np[style-name='x'] => p\n"
+        "r[style-name='Emphasis'] => em\ntable.Fancy[style-name='Fancy Table'] => table\np:ordered-list(1) => ol > li:fresh\n"
+        "p[style-name^='List']:unordered-list(2) => ul > li:fresh\nhighlight[color='yellow'] => mark\nbr[type='column'] => hr\n"
+        "i => i\nstrike => del\nall-caps => span.c\nsmall-caps => span.sc\ncomment-reference => sup"]
 
 
 def supported_gen(rng, i):
